@@ -33,5 +33,6 @@ extern unsigned long vs_create_fail_mask; /* bit k: the k-th pthread_create of t
 extern int vs_tso;        /* 1: simulate store buffers (default), 0: SC */
 extern int vs_strict;     /* 1: RMW/fence/lock/futex enabled only on an empty own buffer (default) */
 extern int vs_self(void); /* scenario thread id of the caller, -1 outside */
+extern int vs_mutex_owner(pthread_mutex_t *m); /* scenario thread id holding m under the mutex emulation, -1 when free */
 extern long vs_steps(int t); /* number of hooked steps taken by t so far */
 #endif
